@@ -46,8 +46,8 @@ theorem all_brine_values_hashable : Gen.allBrineValuesHashable = true := brine_v
 
 /-- what the model does where that obligation fails (Python < 3.12, a `slice` port): refused, no notification, and an
 empty inner dict left under the upper-cased first name -/
-example : (registerUnhashable ⟨id, id, id⟩ [] [[122, 122]]).sv.length = 1
-    ∧ (registerUnhashable ⟨id, id, id⟩ [] [[122, 122]]).notes.length = 0 := by decide +kernel
+example : (registerUnhashable { upper := id, lower := id, fsetIter := id } [] [[122, 122]]).sv.length = 1
+    ∧ (registerUnhashable { upper := id, lower := id, fsetIter := id } [] [[122, 122]]).notes.length = 0 := by decide +kernel
 
 /-- **Interpreter obligation.**  `_work`'s two `self.logger.warn(...)` calls (wrong magic, unknown command) sit outside
 every `try`; with a real `logging.Logger` they do not raise on this interpreter (observed; `Logger.warn` is removed in
@@ -153,14 +153,28 @@ theorem notifications_exact (env : Env) (pruning : Int) (evs : List Event) (n a 
 
 /-! ### (3) work_total -/
 
-/-- **For EVERY datagram — all byte strings — the loop keeps running**, provided the addresses already stored
-can be sent back (`SvStorable`: each was decoded from a datagram or is the transport's host text, and fewer
-than 2^32 servers share a name). -/
-theorem work_total (env : Env) (pruning : Int) (sv : Services) (host : Val) (dgram : Bytes) (now : Int)
-    (hinv : Inv sv) (hs : SvStorable sv) : (workStep env pruning sv host dgram now).alive = true :=
-  workStep_alive env pruning sv host dgram now hinv hs
+/-- **Code obligation.**  `self._send(brine.dump(reply), addrinfo)` sits inside a guard of its own (observed on the live
+`_work` with a `brine` whose dump of one reply raises `RecursionError`): a reply that cannot be serialized or sent is
+logged and the loop goes on. -/
+theorem reply_dump_is_guarded : Gen.replyDumpGuarded = true := reply_dump_guarded
 
-/-- what the real `_recv` hands over is a genuine datagram in the sense of `registry_never_dies`: bytes, and at most
+/-- **Why that guard is needed (the defect it repairs).**  With `brine.dump(reply)` bare in the `else:` clause, a command
+that returned normally whose reply the interpreter cannot dump ends `_work`: `RecursionError` for a stored port nested
+near the recursion limit — a REGISTER with such a port is accepted, because dumping the innermost value takes a frame
+more than loading it took, and the next QUERY for that name by anyone kills the loop.  Concretely: any environment in
+which the dump of the acknowledgement overflows, any command result `OK`. -/
+theorem C18_counterexample_unguarded_reply_dump :
+    ∃ (env : Env) (r : CmdRes), r.out = .ok ack ∧ (finishG false env r).alive = false ∧ (finishG true env r).alive = true :=
+  ⟨{ upper := id, lower := id, fsetIter := id, dumpOverflows := fun _ => true }, ⟨[], [], .ok ack⟩, rfl,
+   finishG_unguarded_dies _ _ ack rfl rfl, finishG_alive _ _⟩
+
+/-- **For EVERY datagram — all byte strings — every table, every environment (recursion limit included), the loop
+keeps running.**  No hypothesis. -/
+theorem work_total (env : Env) (pruning : Int) (sv : Services) (host : Val) (dgram : Bytes) (now : Int) :
+    (workStep env pruning sv host dgram now).alive = true :=
+  workStep_alive env pruning sv host dgram now
+
+/-- what the real `_recv` hands over is a genuine datagram in the sense of `stored_can_always_be_sent`: bytes, and at most
 `MAX_DGRAM_SIZE` of them -/
 theorem received_is_genuine (d : Bytes) (hb : ∀ x ∈ d, x < 256) : Genuine (udpRecv d) := by
   refine ⟨fun x hx => hb x (List.mem_of_mem_take hx), ?_⟩
@@ -168,16 +182,27 @@ theorem received_is_genuine (d : Bytes) (hb : ∀ x ∈ d, x < 256) : Genuine (u
   have h2 : Gen.maxDgramSize < 2 ^ 29 := by decide
   omega
 
-/-- **The loop never dies, for every history.**  From the empty registry, for every history of fewer than 2^32
-datagrams — each any genuine byte string (what `_recv` returns), from any host whose text `brine.dump` accepts, at
-any clock reading — every iteration of `_work` leaves the loop running.  The hypotheses of `work_total` are
-discharged here: every stored port was decoded from such a datagram, hence can be dumped again
-(`load_storable`), and a name gains at most one server per datagram.  `EnvOk`: iterating a frozenset yields
-members of it. -/
-theorem registry_never_dies (env : Env) (hE : EnvOk env) (pruning : Int) (evs : List Event)
-    (hev : EventsOk evs) (hlen : evs.length < 2 ^ 32) : allAlive env pruning St.init evs = true :=
-  allAlive_of env hE pruning evs St.init 0 inv_nil (by intro e he; simp [St.init] at he)
+/-- **The loop never dies, for every history**: any datagrams, any hosts, any clocks, any start state. -/
+theorem registry_never_dies (env : Env) (pruning : Int) (st : St) (evs : List Event) :
+    allAlive env pruning st evs = true :=
+  allAlive_all env pruning evs st
+
+/-- **... and it keeps answering.**  From the empty registry, after any history of fewer than 2^32 genuine datagrams
+(what `_recv` returns) from hosts whose text `brine.dump` accepts, everything stored can be dumped again
+(`load_storable`: whatever `brine.load` returns can be dumped; a name gains at most one server per datagram), so a
+command that runs to its end is answered with exactly what it returned — unless the interpreter's recursion limit
+stops `brine.dump` of that reply (`env.dumpOverflows`), in which case nothing is sent and the loop goes on. -/
+theorem stored_can_always_be_sent (env : Env) (hE : EnvOk env) (pruning : Int) (evs : List Event)
+    (hev : EventsOk evs) (hlen : evs.length < 2 ^ 32) :
+    SvStorable (run env pruning St.init evs).sv
+    ∧ ∀ host now c xs reply,
+        (callCmd env pruning (run env pruning St.init evs).sv host now c xs).out = .ok reply →
+        env.dumpOverflows reply = false →
+        (finish env (callCmd env pruning (run env pruning St.init evs).sv host now c xs)).reply = some reply := by
+  have hs := run_storable env hE pruning evs St.init 0 inv_nil (by intro e he; simp [St.init] at he)
     (by intro e he; simp [St.init] at he) hev (by omega)
+  have hi := (run_good env pruning evs St.init inv_nil balanced_init).1
+  exact ⟨hs, fun host now c xs reply ho hov => callCmd_is_answered env pruning _ host now hi hs c xs reply ho hov⟩
 
 /-- **A datagram that is not a well-formed command changes nothing**: table identical (order included),
 no notification, no reply, loop running.  No hypothesis on the table. -/
@@ -250,32 +275,15 @@ theorem register_then_query_finds (env : Env) (pruning : Int) (sv : Services) (h
   obtain ⟨a, hm, hc⟩ := mem_innerOf_of_view _ _ _ _ hv
   exact ⟨a, (query_members pruning _ _ now a).mpr ⟨now, hm, by omega⟩, hc⟩
 
-/-- the classes of malformed datagram the statement lists all mean `none` -/
-theorem malformed_classes (env : Env) (host : Val) :
-    (∀ d e, load d = .error e → intent env host d = .none)
-    ∧ (∀ d v e, load d = .ok v → unpack3' env v = .error e → intent env host d = .none)
-    ∧ (∀ d v m, load d = .ok v → unpack3' env v = .ok m → isMagic m.1 = false → intent env host d = .none)
-    ∧ (∀ d v m, load d = .ok v → unpack3' env v = .ok m → lookupCmd env m.2.1 = none → intent env host d = .none)
-    ∧ (∀ cmd, (∀ s, cmd ≠ .str s) → lookupCmd env cmd = none) := by
-  refine ⟨?_, ?_, ?_, ?_, ?_⟩
-  · intro d e h; simp [intent, h]
-  · intro d v e h1 h2; simp [intent, h1, intentVal, h2]
-  · intro d v m h1 h2 h3; simp [intent, h1, intentVal, h2, intent3, h3]
-  · intro d v m h1 h2 h3
-    simp only [intent, h1, intentVal, h2, intent3, h3]
-    split <;> rfl
-  · intro cmd h
-    cases cmd <;> first | rfl | exact absurd rfl (h _)
-
 /-- **The registry executes exactly what a well-formed request names** (the datagrams the client classes
 build): a QUERY / REGISTER / UNREGISTER request with the right number of arguments runs that command on exactly
 those arguments. -/
 theorem wellformed_is_executed (env : Env) (pruning : Int) (sv : Services) (host : Val) (now : Int)
     (cmd : List Nat) (args : List Val) (e : Bytes) (c : CmdName × Nat)
     (hwf : (request cmd args).wf = true) (hd : dump (request cmd args) = .ok e)
-    (hc : lookupCmd env (.str cmd) = some c) (hlen : args.length = c.2) :
-    workStep env pruning sv host e now = finish (callCmd env pruning sv host now c.1 args) :=
-  workStep_request env pruning sv host now cmd args e c hwf hd hc hlen
+    (hc : lookupCmd env (.str cmd) = some c) (hlen : args.length = c.2) (hov : env.loadOverflows e = false) :
+    workStep env pruning sv host e now = finish env (callCmd env pruning sv host now c.1 args) :=
+  workStep_request env pruning sv host now cmd args e c hwf hd hc hlen hov
 
 /-! ### (4) tcp_liveness -/
 
@@ -325,7 +333,7 @@ theorem tcp_client_is_workStep (env : Env) (pruning : Int) (fdLimit : Nat) (ts :
 
 /-! ### non-vacuity: concrete, non-trivial states and histories -/
 
-def env0 : Env := ⟨id, id, id⟩
+def env0 : Env := { upper := id, lower := id, fsetIter := id }
 def hostA : Val := .str [49, 48, 46, 48, 46, 48, 46, 49]
 def hostB : Val := .str [49, 48, 46, 48, 46, 48, 46, 50]
 def sCalc : List Nat := [99, 97, 108, 99]
@@ -364,11 +372,11 @@ example : addrCode (hostA, .int 1) = addrCode (hostA, .bool true) ∧ addrCode (
 
 /-- the three request shapes of the clients are well-formed, encodable and understood -/
 example : ∃ e, dump (request [81, 85, 69, 82, 89] [.str sCalc]) = .ok e
-    ∧ workStep env0 3000 table hostB e 6000 = finish (callCmd env0 3000 table hostB 6000 .query [.str sCalc]) := by
+    ∧ workStep env0 3000 table hostB e 6000 = finish env0 (callCmd env0 3000 table hostB 6000 .query [.str sCalc]) := by
   obtain ⟨e, he⟩ := enc_ok (request [81, 85, 69, 82, 89] [.str sCalc]) (by decide +kernel) (by decide +kernel)
-  exact ⟨e, he, wellformed_is_executed env0 3000 table hostB 6000 _ _ e (.query, 1) (by decide +kernel) he (lookup_QUERY env0) rfl⟩
+  exact ⟨e, he, wellformed_is_executed env0 3000 table hostB 6000 _ _ e (.query, 1) (by decide +kernel) he (lookup_QUERY env0) rfl rfl⟩
 
-/-- a history satisfying the hypotheses of `registry_never_dies`: garbage, a truncated command, a non-text command -/
+/-- a history satisfying the hypotheses of `stored_can_always_be_sent`: garbage, a truncated command, a non-text command -/
 example : EnvOk env0 ∧ EventsOk [⟨0, hostA, [255, 255]⟩, ⟨5, hostB, [18, 8, 13, 82, 80]⟩, ⟨5, hostB, [18, 8, 13, 82, 80, 89, 67, 85, 2]⟩] := by
   refine ⟨fun _ _ h => h, ?_⟩
   intro e he
